@@ -2,7 +2,7 @@ import json,subprocess,re,sys,os,glob
 from concurrent.futures import ThreadPoolExecutor
 def one(d):
     name=os.path.basename(d); cid=name[:3]
-    check={'C16b':'C10','C17c':'C15','C09e':'C07','C11e':'C16','C06g':'C05','C07h':'C09','C16h':'C12'}.get(name,cid)
+    check={'C16b':'C10','C17c':'C15','C09e':'C07','C11e':'C16','C06g':'C05','C07h':'C09','C16h':'C12','C07j':'C09','C11j':'C16','C17j':'C04'}.get(name,cid)
     r=subprocess.run(['/verif/bin/check',check,'quick','--patch',d+'/patch.diff','--tag','meta'+name],capture_output=True,text=True)
     keys=sorted(set(re.findall(r'VIOLATION property=\S+ replay=\S+ key=(\S+)',r.stdout)))
     m=json.load(open(d+'/meta.json'))
@@ -10,7 +10,7 @@ def one(d):
     m['caught_by']='%s (%s)'%(check,', '.join(k.split(':',1)[1] for k in keys[:4])) if keys else 'NOT CAUGHT'
     m['check_command']='bin/check %s quick --patch seeded/%s/patch.diff'%(check,name)
     m['needs_to_manifest']='see NOTES.md (written by the seeding agent)'
-    m['round']={'b':2,'c':3,'d':4,'e':5,'f':6,'g':7,'h':8,'i':9}[sys.argv[1]]
+    m['round']={'b':2,'c':3,'d':4,'e':5,'f':6,'g':7,'h':8,'i':9,'j':10,'k':11}[sys.argv[1]]
     json.dump(m,open(d+'/meta.json','w'),indent=1)
     return name,m['caught_by'][:150]
 ds=sorted(glob.glob('/verif/seeded/C??'+sys.argv[1]))
